@@ -5,6 +5,8 @@ HERE = os.path.dirname(os.path.dirname(os.path.abspath(__file__)))
 CHECKS = {
  "C05": ("proof", "TournamentSelection._elitism/_tournament/select proved for every population size, tournament size, window, elitism flag, fitness assignment (ties included) and every random draw: the elite is a copy of an agent with maximal mean of the last scores, the rank order is consistent with those means, each tournament winner is the best-ranked of its draw, the new population has the configured size, its first member is the elite (with elitism), the others carry fresh consecutive indices above every old index.",
          "numpy argsort/argmax/randint/mean contracts; clone() by an ASSUMED contract (C01); NaN/empty fitness excluded."),
+ "C06": ("proof", "RLParameter.mutate (float and int) and Mutations.rl_hyperparam_mutation with every callee inlined from the real source (HyperparameterConfig.sample/__bool__, get_lr_names, EvolvableAlgorithm.__setattr__, reinit_opt, OptimizerWrapper.__init__, init_from_single/multiple): for all values, ranges, factors and draws exactly one configured hyper-parameter becomes dtype(clip(own current value x shrink|grow, min, max)), all others are unchanged, a mutated learning rate is the lr of every param group of the rebuilt optimizer over the agent's current networks, and the agent reports the mutated name.",
+         "registry layout enumerated (1-3 hyper-parameters, 1-2 optimizers, shared optimizer), values symbolic; torch.optim constructor contract; floats as reals; DeepSpeed branch excluded."),
  "C09": ("proof", "ReplayBuffer.add/sample/clear/__len__ proved against a ring-buffer representation invariant with a ghost history (all capacities, cursor positions, batch widths incl. wrap exactly at/over the end); storage = last min(N,added) rows; sampled rows are stored rows, distinct indices, fresh copies. Multi-agent buffer: bounded native check only.",
          "TensorDict row model (slice views, slice assignment copies rows, advanced indexing returns a copy), torch.randperm is a permutation, ints mathematical; Transition shape normalisation and MultiAgentReplayBuffer are bounded stand-ins."),
  "C10": ("proof", "MultiStepReplayBuffer._get_n_step_info and .add proved for every n, gamma, number of envs and placement of done flags: the fused row is the discounted sum up to a cut index j with no terminal step of that env before j, cut only at the window end or where some env ends, with next_obs/done of step j and obs/action of step 0; add returns the first window element whose (obs, action) equal those of the row appended to the n-step storage (alignment with the 1-step buffer).",
